@@ -443,4 +443,55 @@ namespace vf
         R.finish();
         return 0;
     }
+
+    // ---------------------------------------------------------------- coverage-guided campaigns (libFuzzer, -DVF_FUZZ)
+    // One execution = one case whose generator decisions come from the fuzzer's byte string (see Rng::set_source); F is
+    // void(Runner&, Rng&, const std::string& prop). VF_FUZZ_PROP selects the property whose violations stop the campaign ("all":
+    // sanitizer reports and table-width invariants only); VF_FUZZ_KNOWN lists "<property>:<key>" pairs of known findings.
+    inline Runner*& fuzz_runner_slot()
+    {
+        static Runner* r = nullptr;
+        return r;
+    }
+    inline void fuzz_finish()
+    {
+        if (fuzz_runner_slot())
+            fuzz_runner_slot()->finish();
+    }
+
+    template <class F>
+    int fuzz_one(const char* harness, const std::string& gridkind, const char* default_prop, const unsigned char* data, std::size_t size, F&& f)
+    {
+        static std::string prop;
+        static long k = 0;
+        Runner*& slot = fuzz_runner_slot();
+        if (!slot)
+        {
+            Args a;
+            const char* p = std::getenv("VF_FUZZ_PROP");
+            a.prop = p ? p : default_prop;
+            a.tier = "quick";
+            a.cases = 0;
+            prop = a.prop;
+            slot = new Runner(a, harness, gridkind);
+            slot->set_fuzz(std::getenv("VF_FUZZ_KNOWN"));
+            std::atexit(fuzz_finish);
+        }
+        Runner& R = *slot;
+        std::uint64_t head = 0;
+        std::memcpy(&head, data, size < 8 ? size : 8);
+        Rng rng(0x5eedULL, head);  // what follows the buffer depends on its first bytes only: local mutations stay local
+        rng.set_source(data, size);
+        R.begin(k++);
+        try
+        {
+            f(R, rng, prop);
+        }
+        catch (const std::exception& e)
+        {
+            R.violation(prop == "all" ? "C08" : prop, std::string("exception/") + typeid(e).name(), JObj().s("what", e.what()).str());
+        }
+        R.end();
+        return 0;
+    }
 }
